@@ -40,7 +40,7 @@ class BoxEngine(Engine):
     max_ops = 40
     expected_probes = ['cache_warm_when_vects_changed', 'refused_raised', 'scribble_returned',
                        'scribble_passed', 'on_face_exact', 'nonnorm_cell', 'reexpress_norm',
-                       'reexpress_nonnorm', 'list_input', 'scalar_point', 'model_roundtrip', 'model_of_other_cell_read', 'noncontiguous_points', 'cube_rotated_cell', 'bulk_points_query', 'classmethod_same_arguments_again', 'integer_typed_lengths',
+                       'reexpress_nonnorm', 'list_input', 'scalar_point', 'model_roundtrip', 'model_of_other_cell_read', 'noncontiguous_points', 'cube_rotated_cell', 'bulk_points_query', 'classmethod_same_arguments_again', 'integer_typed_lengths', 'integer_typed_cartesian_points', 'bystander_call',
                        'scribble_returned_planes']
     rule = ('Each run drives ONE Box object (occasionally replaced by a constructor or deepcopy) through up to 40 '
             'seeded operations: the five setter families (set_vectors, set_abc, set_lengths, set_hi_los, '
@@ -108,7 +108,7 @@ class BoxEngine(Engine):
         r = ctx.rng
         cfg = st['cfg']
         kinds = [('set', cfg['w_set']), ('query', cfg['w_query']), ('reexpress', cfg['w_reexpress']),
-                 ('model', cfg['w_model']), ('deepcopy', 0.15)]
+                 ('model', cfg['w_model']), ('deepcopy', 0.15), ('bystander', 0.5)]
         if not cfg['fault_free']:
             kinds.append(('fault', cfg['w_fault']))
         k = ctx.wchoice(kinds)
@@ -128,6 +128,10 @@ class BoxEngine(Engine):
             return op
         if k == 'deepcopy':
             return {'op': 'deepcopy'}
+        if k == 'bystander':
+            return {'op': 'bystander', 'which': r.choice(['plane_crystal_to_cartesian', 'vector_crystal_to_cartesian', 'planes', 'str',
+                                                           'is_lammps_norm', 'volume', 'reciprocal_vects']),
+                    'hkl': [r.randint(-3, 3) for _ in range(3)]}
         return self._gen_fault(ctx, st)
 
     def _gen_set(self, ctx, st):
@@ -227,11 +231,11 @@ class BoxEngine(Engine):
         rel = np.array(pts).reshape(tuple(shape) + (3,))
         if r.random() < 0.03:
             # a large set of points in one call (drawn in apply from the recorded seed: replay files stay small)
-            return {'op': 'query', 'rel': [[0.5, 0.5, 0.5]], 'bulk': {'n': r.choice([10000, 12000, 20011]), 'seed': r.getrandbits(31)},
+            return {'op': 'query', 'rel': [[0.5, 0.5, 0.5]], 'bulk': {'n': r.choice([10000, 12000, 20011, 65537, 100003]), 'seed': r.getrandbits(31)},
                     'as_list': False, 'inclusive': r.random() < 0.5, 'face': None, 'int_input': False, 'layout': r.choice(['C', 'F'])}
         return {'op': 'query', 'rel': rel, 'as_list': r.random() < 0.4, 'inclusive': r.random() < 0.5,
                 'face': r.choice([None, None, 0, 1, 2, 3, 4, 5]), 'int_input': r.random() < 0.1,
-                'layout': r.choice(['C', 'C', 'F', 'strided', 'T'])}
+                'int_cart': r.random() < 0.12, 'layout': r.choice(['C', 'C', 'F', 'strided', 'T'])}
 
     def _gen_fault(self, ctx, st):
         r = ctx.rng
@@ -277,6 +281,26 @@ class BoxEngine(Engine):
         elif k == 'deepcopy':
             st['box'] = ctx.must('C01.X', copy.deepcopy, st['box'])
             ctx.ev('op', 'deepcopy')
+        elif k == 'bystander':
+            # other things a caller does with a Box between two conversions; none of them may change the cell
+            box, which = st['box'], op['which']
+            hkl = [int(x) for x in op['hkl']]
+            if not any(hkl):
+                hkl = [1, 0, 0]
+            if which == 'plane_crystal_to_cartesian':
+                ctx.sut(box.plane_crystal_to_cartesian, np.array(hkl))
+            elif which == 'vector_crystal_to_cartesian':
+                ctx.sut(box.vector_crystal_to_cartesian, np.array(hkl))
+            elif which == 'planes':
+                ctx.sut(getattr, box, 'planes')
+            elif which == 'str':
+                ctx.sut(str, box)
+            else:
+                ctx.sut(getattr, box, which)
+                if which == 'reciprocal_vects':
+                    st['warm'] = True
+            ctx.probe('bystander_call')
+            ctx.ev('op', 'bystander', {'which': which})
         elif k == 'refuse':
             refused = self._apply_refuse(ctx, st, op)
         elif k == 'scribble_returned':
@@ -450,6 +474,12 @@ class BoxEngine(Engine):
         if op.get('int_input'):
             rel = np.round(rel * 2)          # integer-valued relative coordinates
         cart = geom.rel_to_cart(V, o, rel)
+        int_cart = bool(op.get('int_cart')) and not op.get('bulk') and float(np.abs(V).max()) >= 2.0
+        if int_cart:
+            # Cartesian points on the integer grid, handed over with an integer dtype (grid points, voxel indices)
+            cart = np.round(cart)
+            rel = geom.cart_to_rel(V, o, cart)
+            ctx.probe('integer_typed_cartesian_points')
         size = float(np.abs(V).max()) + float(np.abs(o).max())
         tol = self._conv_tol(st)
         klass = 'list' if op['as_list'] else 'array'
@@ -459,7 +489,7 @@ class BoxEngine(Engine):
             ctx.probe('list_input')
 
         def give(x):
-            if op.get('int_input'):
+            if op.get('int_input') or (int_cart and x is cart):
                 x = x.astype(int) if np.all(x == np.round(x)) else x
             if op['as_list']:
                 return x.tolist()
